@@ -58,24 +58,51 @@ func (c *Ctx) c12History(nops int, withDelete bool) (lines, impl []string, oerr 
 			oerr = fmt.Sprintf(f, a...)
 		}
 	}
+	// every key is a "field" with a declared type: stores through Assign must convert to it
+	tags := goat.VerifTypeTags()
+	kindOf := func(k int) string {
+		if k < 0 {
+			k = -k
+		}
+		return []string{"int32", "uint8", "float64"}[k%3]
+	}
+	typed := func(k, v int) (goat.Value, int) { // the value Set stores and the number it holds
+		switch kindOf(k) {
+		case "uint8":
+			return goat.Byte(byte(v)), v % 256
+		case "float64":
+			return goat.Float64(float64(v)), v
+		}
+		return goat.Int(v), v
+	}
+	checkTag := func(k int, v goat.Value) {
+		if v.VerifTag() != tags[kindOf(k)] {
+			fail("key %d holds a value of tag %d, its field type %s has tag %d", k, v.VerifTag(), kindOf(k), tags[kindOf(k)])
+		}
+	}
 	for i := 0; i < nops; i++ {
 		k := Pick(r, pool)
 		t, mir := tabs[cur], mirrors[cur]
 		switch op := r.Intn(100); {
 		case op < 40:
 			v := r.Intn(1000)
-			t.Set(k, goat.Int(v))
-			mir[k] = v
+			val, num := typed(k, v)
+			t.Set(k, val)
+			mir[k] = num
+			v = num
 			lines = append(lines, fmt.Sprintf("imap set %d %d", k, v))
 			impl = append(impl, "ok")
 			c.Rep.Count("op-set")
 		case op < 50:
 			v := r.Intn(1000)
-			t.Assign(k, goat.Int(v))
+			_, num := typed(k, v)
+			t.Assign(k, goat.VerifUntyped(v)) // an untyped constant: converted to the field's type on store
+			v = num
 			if _, ok := mir[k]; ok {
 				mir[k] = v
 			}
 			lines = append(lines, fmt.Sprintf("imap assign %d %d", k, v))
+			c.Rep.Count("assign-" + kindOf(k))
 			impl = append(impl, "ok")
 			c.Rep.Count("op-assign")
 		case op < 70:
@@ -83,6 +110,9 @@ func (c *Ctx) c12History(nops int, withDelete bool) (lines, impl []string, oerr 
 			mv, mok := mir[k]
 			if ok != mok || (ok && v.Int() != mv) {
 				fail("get %d: table (%v,%v) map (%v,%v)", k, v, ok, mv, mok)
+			}
+			if ok {
+				checkTag(k, v)
 			}
 			lines = append(lines, fmt.Sprintf("imap get %d", k))
 			if ok {
@@ -124,6 +154,8 @@ func (c *Ctx) c12History(nops int, withDelete bool) (lines, impl []string, oerr 
 			for a, b := range mir {
 				if v, ok := t.Get(a); !ok || v.Int() != b {
 					fail("key %d lost or wrong: (%v,%v) want %d", a, v, ok, b)
+				} else {
+					checkTag(a, v)
 				}
 			}
 		}
@@ -146,13 +178,33 @@ func (c *Ctx) c12Scripts() error {
 			nm = Pick(r, []int{0, 1, 13})
 		}
 		var sb strings.Builder
+		ftype := func(i int) string {
+			switch {
+			case i%7 == 3:
+				return "byte"
+			case i%5 == 1:
+				return "float64"
+			}
+			return "int"
+		}
+		// an earlier, unrelated type that already uses some of S's field names, with padding names in
+		// between: S's fields then get scattered symbol indices and collide in its field table
+		if nf > 1 && r.Bool() {
+			sb.WriteString("type P struct {\n")
+			for i := 0; i < nf; i++ {
+				if r.Intn(3) == 0 {
+					fmt.Fprintf(&sb, "\tF%d int\n", i)
+					for q := r.Intn(20); q > 0; q-- {
+						fmt.Fprintf(&sb, "\tQ%d_%d int\n", i, q)
+					}
+				}
+			}
+			sb.WriteString("}\n")
+			c.Rep.Count("struct-script-scattered-field-indices")
+		}
 		sb.WriteString("type S struct {\n")
 		for i := 0; i < nf; i++ {
-			typ := "int"
-			if i%7 == 3 {
-				typ = "byte"
-			}
-			fmt.Fprintf(&sb, "\tF%d %s\n", i, typ)
+			fmt.Fprintf(&sb, "\tF%d %s\n", i, ftype(i))
 		}
 		sb.WriteString("}\n")
 		for i := 0; i < nm; i++ {
@@ -190,10 +242,22 @@ func (c *Ctx) c12Scripts() error {
 				if f%7 == 3 {
 					inst[real][f] %= 256
 				}
-			case op < 8 && nf > 0:
+			case op < 7 && nf > 0:
 				f := r.Intn(nf)
 				fmt.Fprintf(&sb, "println(\"f\", %s.F%d)\n", v, f)
 				want = append(want, fmt.Sprintf("f %d", inst[real][f]))
+			case op < 8 && nf > 0: // a use that shows the field's type
+				f := r.Intn(nf)
+				fmt.Fprintf(&sb, "println(\"h\", %s.F%d/2, %s.F%d+100)\n", v, f, v, f)
+				x := inst[real][f]
+				switch ftype(f) {
+				case "float64":
+					want = append(want, fmt.Sprintf("h %v %v", float64(x)/2, float64(x)+100))
+				case "byte":
+					want = append(want, fmt.Sprintf("h %d %d", byte(x)/2, byte(x)+100))
+				default:
+					want = append(want, fmt.Sprintf("h %d %d", int32(x)/2, int32(x)+100))
+				}
 			case nm > 0:
 				m := r.Intn(nm)
 				fmt.Fprintf(&sb, "println(\"m\", %s.M%d(%d))\n", v, m, k)
